@@ -343,6 +343,7 @@ impl World {
             Ok(())
         });
         res.map_err(Stop::Harness)?;
+        self.ctrl.bump_activity();
         self.wait()
     }
 
